@@ -25,6 +25,28 @@ CHECKS["C07"] = dict(level="model_checking", engine="E1", ref="5/C07",
    technique="explicit-state BFS to fixpoint; every Allocate(hint naming a free block) transition in every reachable state checked, plus word-boundary hint families",
    text="On every transition of the C05 graphs whose hint names a currently free block (IPv4 4-/16-byte forms; IPv6 hints at block base, base+1, last address; nil / 32-bit masks) the returned block must be exactly that block. Word-boundary family: pools of 63/64/65 (thorough: 127..257) blocks with everything held except j, for every j next to a 64-bit bitmap word boundary, and hints on a sparse pool.",
    note=ALLOC_NOTE)
+
+SRV_NOTE = "Socket I/O replaced by hook H1 (WriteTo/ReadFrom shadowing, L2 frame sink): everything up to the write call runs unmodified; the kernel send path and AF_PACKET syscalls are not executed. Oracle parses raw bytes with an independent RFC parser (mc/pkt)."
+CHECKS["C11"] = dict(level="exploration", engine="E3", ref="5/C11",
+   technique="bounded-exhaustive enumeration: complete cross product of header/option alphabets through the real HandleMsg4, byte-level reference from the property text",
+   text="All 256 opcodes x 257 message-type values (65 792 datagrams) plus the full product of xid/htype/hlen/flags/giaddr/ciaddr/option 82/option 61 values under five plugin chains (empty, range, server_id+range, NAK-producing, nil-returning) and every truncation of three seeds are run through the real per-datagram entry point; each reply is compared field by field with its request, and non-requests must stay unanswered.",
+   note=SRV_NOTE)
+CHECKS["C12"] = dict(level="exploration", engine="E3", ref="5/C12",
+   technique="bounded-exhaustive enumeration: complete cross product (type byte x client-id x rapid-commit x relay depth x per-layer variants x peer x listener binding) through the real HandleMsg6, byte-level reference",
+   text="Every message-type byte 0..255 with/without client-id and rapid-commit, relay nesting depth 0..2 (thorough 0..4) with nine per-layer address/option variants, global and link-local peers, bound/unbound listeners, with/without receive control message: reply type, xid, client-id, per-layer link/peer/Interface-ID mirroring, enclosed answer, destination and interface pinning are checked on the wire bytes; unsupported types, Relay-Reply and unparseable datagrams must stay unanswered.",
+   note=SRV_NOTE)
+CHECKS["C13"] = dict(level="exploration", engine="E3", ref="5/C13",
+   technique="bounded-exhaustive enumeration of plugin chains (all behaviour sequences up to length 4/5, all kind placements up to length 3) against a reference chain interpreter",
+   text="All chains of 0..4 (thorough 0..5) synthetic plugins over {pass, modify, replace, stop, stop-with-nil} for both protocols, loaded through the real plugins.LoadPlugins (and config.Load from generated YAML) and executed by HandleMsg4/6: instantiation order, invocation order, request identity, response threading, what is sent, and rejection of unknown / failing plugins are compared with a reference interpreter.",
+   note="Synthetic plugins are registered through plugins.RegisterPlugin. server.Start is not executed.")
+CHECKS["C14"] = dict(level="exploration", engine="E3", ref="5/C14",
+   technique="bounded-exhaustive enumeration of the RFC 8415 s.16 decision table (type x server-id variant x relay depth) and the DHCPv4 siaddr/option-54 table, one process per server_id configuration",
+   text="For each accepted server_id configuration (own process, because the id is a package global): 16 message types x 8 Server Identifier variants x relay depth 0..1(2), both as direct handler calls and through HandleMsg6; DHCPv4 siaddr {0, own, other} x option 54 {absent, own, other, zero} x {DISCOVER, REQUEST}. Dropped/accepted is compared with the table in the property and accepted replies must carry exactly this server's identifier.",
+   note=SRV_NOTE)
+CHECKS["C15"] = dict(level="exploration", engine="E3", ref="5/C15",
+   technique="bounded-exhaustive enumeration of the RFC 2131 s.4.1 decision table through the real HandleMsg4 + sendEthernet (frame captured before the raw socket)",
+   text="giaddr x ciaddr in {0, routable, link-local, broadcast} x broadcast flag x reply type {OFFER, ACK, NAK} x yiaddr x listener {unbound, bound to each host interface} x receiving interface: destination address and port, interface pinning, and for link-level replies the Ethernet/IP/UDP headers and payload of the serialised frame are compared with the cascade as worded in the property.",
+   note=SRV_NOTE + " Interface set is the sandbox's (lo has no MAC, so link-level frames on lo are not produced).")
 ALL = ["C%02d" % i for i in range(1, 21)]
 NA_REASON = "check not built yet in this session (planned, see DESIGN.md section 5); will be claimed once its machinery exists"
 m = {
@@ -40,7 +62,7 @@ m = {
  "engines": [
   {"name": "E1 explicit-state BFS over real handlers", "path": "mc/explore", "serves_properties": ["C04","C05","C06","C07"], "kind_free_text": "explicit-state model checking where every transition is an execution of the real code on a fresh instance (replay of the shortest path + 1 op); state key = hook dump + observer ghost"},
   {"name": "E2 cooperative scheduler + preemption-bounded DFS", "path": "mc/sched + mc/verifsched + mc/cmd/instr", "serves_properties": [], "kind_free_text": "stateless model checking of the implementation: sync replaced by a shim through go build -overlay, Yield() injected before every statement, all schedules up to a preemption bound"},
-  {"name": "E3 bounded-exhaustive enumerator vs reference model", "path": "mc/checks/*", "serves_properties": ["C20"], "kind_free_text": "complete cross product of small per-dimension alphabets executed on the real code and compared with a reference written from the property text"},
+  {"name": "E3 bounded-exhaustive enumerator vs reference model", "path": "mc/checks/*", "serves_properties": ["C11","C12","C13","C14","C15","C20"], "kind_free_text": "complete cross product of small per-dimension alphabets executed on the real code and compared with a reference written from the property text"},
  ],
  "checks": [],
  "not_applicable": [],
